@@ -177,12 +177,27 @@ where
             .get_mut(folder_id)
             .ok_or_else(|| StorageError::FolderNotFound(*folder_id))?;
         folder.force_merge(&diff).await?;
+        let access_point = folder.access_point();
+
+        // The folder was replaced so the name and flags kept
+        // in the in-memory summary may be stale too
+        let summary = {
+            use sos_vault::SecretAccess;
+            let access_point = access_point.lock().await;
+            access_point.vault().summary().clone()
+        };
+        self.0
+            .set_folder_name(folder_id, summary.name(), Internal)?;
+        self.0.set_folder_flags(
+            folder_id,
+            summary.flags().clone(),
+            Internal,
+        )?;
 
         // The folder content was replaced so the documents
         // in the search index for this folder are stale
         #[cfg(feature = "search")]
         {
-            let access_point = folder.access_point();
             if let Some(index) = self.0.search_index() {
                 let access_point = access_point.lock().await;
                 index.remove_folder(folder_id).await;
